@@ -10,11 +10,12 @@
 
   Documented formulas: `docCrit` is an independent specification of all ten criteria (mathematical norms,
   projection `Π_C`); `calcErrorStopCrit_eq_doc` proves the generated code equal to it for nine criteria;
-  for `Ipopt` the code computes `codedIpopt ≠ docIpopt` (open finding `C06:ipopt-box-multiplier-sign`).
+  for all ten criteria (`Ipopt` since /repo commit f69b0f2f3, finding `C06:ipopt-box-multiplier-sign`, fixed).
   Non-finite residuals: `crit_nonneg_or_nan` / `nonfinite_crit_never_converged` over `XR β` with IEEE
   arithmetic (`Proofs/C06Spec`) — `ε = −inf` is unreachable for `γ` NaN-or-nonnegative; the tolerance must be
-  finite (`inf_tolerance_accepts_inf`).  `max_no_progress = 0`: `k % 0` is undefined in C++ (open finding
-  `C06:max-no-progress-zero-division`); the no-progress theorems carry `1 ≤ max_no_progress`.
+  finite (`inf_tolerance_accepts_inf`).  `max_no_progress = 0`: the repaired update statement (commit
+  f7343661f, finding `C06:max-no-progress-zero-division`, fixed) tests every iteration; `noProgressUpdate_spec`
+  holds for all `max_no_progress` and the totalised `k % 0` is never looked at.
 -/
 import Alpaqa.Proofs.VecLemmas
 import Alpaqa.Proofs.C06Spec
@@ -238,35 +239,32 @@ theorem npRun_append_single (M k np : Nat) (fl : List Bool) (f : Bool) :
     congr 1
     omega
 
-/-- **`NoProgress` needs more than `max_no_progress` consecutive unchanged iterations — for
-    `max_no_progress ≥ 1`.**  The guard is essential for the *real* code, not for this Lean function: the
-    update statement evaluates `k % max_no_progress`, which for `max_no_progress = 0` is a division by zero
-    in C++ (the real PANOC / ZeroFPR / FISTA / PANOC-OCP solvers die with SIGFPE in their first iteration:
-    known finding `C06:max-no-progress-zero-division`), whereas Lean's `k % 0 = k` lets the model run on.
-    At `max_no_progress = 0` the generated function is therefore *not* a model of the code (see
-    `noProgressUpdate_zero_is_totalised`), and no loop-level theorem says anything about the real solvers
-    there. -/
-theorem no_progress_counts_consecutive_guarded (M : Nat) (hM : 1 ≤ M) (flags : List Bool) (k₀ : Nat) :
-    npRun M k₀ 0 flags ≤ (flags.reverse.takeWhile (· = true)).length :=
-  no_progress_counts_consecutive M flags k₀
-
-/-- With `max_no_progress ≥ 1` the sampling condition `k % max_no_progress == 0` is the C++ one
-    (`%` on `unsigned` with a nonzero divisor): the counter starts counting exactly at the iterations that
-    are multiples of `max_no_progress` (or when it is already running). -/
-theorem noProgressUpdate_spec (np k M : Nat) (hM : 1 ≤ M) (same : Bool) :
+/-- **The no-progress update, as a specification** — for every `max_no_progress`, `0` included: the
+    counter is (re)started at the iterations `k` that are multiples of `max_no_progress` — at *every*
+    iteration when `max_no_progress = 0` — and, once running, counts the consecutive unchanged iterates.
+    (Before /repo commit f7343661f the statement was `no_progress > 0 || k % max_no_progress == 0`: a
+    division by zero at `max_no_progress = 0`, finding `C06:max-no-progress-zero-division`, fixed.  The
+    repaired statement short-circuits on `max_no_progress == 0`, so the value Lean's total `k % 0 = k` takes
+    is never looked at: the generated function is a model of the code for all `max_no_progress`.) -/
+theorem noProgressUpdate_spec (np k M : Nat) (same : Bool) :
     noProgressUpdate np k M same =
-      if 0 < np ∨ M ∣ k then (if same then np + 1 else 0) else np := by
+      if 0 < np ∨ M = 0 ∨ M ∣ k then (if same then np + 1 else 0) else np := by
   unfold noProgressUpdate
   have : (k % M == 0) = decide (M ∣ k) := by
     rw [Bool.eq_iff_iff]; simp [Nat.dvd_iff_mod_eq_zero]
-  simp only [this, Bool.or_eq_true, decide_eq_true_eq]
+  simp only [this, Bool.or_eq_true, decide_eq_true_eq, beq_iff_eq, or_assoc]
 
-/-- What the totalised `%` does at the excluded point: with `max_no_progress = 0` the Lean function
-    samples only at `k = 0` (`k % 0 = k`); the C++ expression is undefined there. -/
-theorem noProgressUpdate_zero_is_totalised (k : Nat) (same : Bool) :
-    noProgressUpdate 0 k 0 same = if k = 0 then (if same then 1 else 0) else 0 := by
-  unfold noProgressUpdate
-  cases k <;> cases same <;> simp
+/-- `max_no_progress = 0`: every iteration is tested (`NoProgress` is reported at the first unchanged
+    iterate, the chain's test being `no_progress > 0`). -/
+theorem noProgressUpdate_zero (np k : Nat) (same : Bool) :
+    noProgressUpdate np k 0 same = if same then np + 1 else 0 := by
+  rw [noProgressUpdate_spec]; simp
+
+/-- `no_progress_counts_consecutive` under its former name (the guard `1 ≤ max_no_progress` was needed while
+    the C++ statement divided by zero at `max_no_progress = 0`; it is no longer). -/
+theorem no_progress_counts_consecutive_guarded (M : Nat) (flags : List Bool) (k₀ : Nat) :
+    npRun M k₀ 0 flags ≤ (flags.reverse.takeWhile (· = true)).length :=
+  no_progress_counts_consecutive M flags k₀
 
 /-! ### Stopping criteria = documented formulas -/
 section crit
@@ -328,15 +326,6 @@ def docIpopt (PC : Vec α → Vec α) (xh yh gh : Vec α) : α :=
     (max 100 ((sumAbs yh + sumAbs (vsub (vsub xh gh) (PC (vsub xh gh)))) /
       ((2 * (yh.length + xh.length) : Nat) : α)) / 100)
 
-/-- Ipopt criterion *as coded* (panoc-helpers.tpp): the vector whose 1-norm enters `s_d` is
-    `(Π_C(v) − x̂) − ∇ψ(x̂)` — the code subtracts `∇ψ(x̂)` from `work_n2 = Π_C(v) − x̂`, whose sign is the
-    opposite of what the source comment assumes — instead of `±w = ±(x̂ − ∇ψ(x̂) − Π_C(v))`. -/
-def codedIpopt (PC : Vec α → Vec α) (xh yh gh : Vec α) : α :=
-  if 2 * (yh.length + xh.length) = 0 then maxAbs (vsub xh (PC (vsub xh gh)))
-  else maxAbs (vsub xh (PC (vsub xh gh))) /
-    (max 100 ((sumAbs yh + sumAbs (vsub (vsub (PC (vsub xh gh)) xh) gh)) /
-      ((2 * (yh.length + xh.length) : Nat) : α)) / 100)
-
 /-- **The documented formula of every criterion** (doc comments of `enum class PANOCStopCrit`). -/
 def docCrit (PC : Vec α → Vec α) (c : PANOCStopCrit) (γ : α) (x xh yh g gh : Vec α) : α :=
   match c with
@@ -377,12 +366,30 @@ theorem fmaxS_eq_max (hnn : ∀ a : α, RealLike.isNaN a = false) (a b : α) : f
   simp only [hnn, Bool.false_eq_true, if_false]
   exact emax_eq_max a b
 
-/-- **`calc_error_stop_crit` = the documented formula, for the nine criteria other than `Ipopt`** — the
-    generated code (which works from the step `p` it is handed, prox-oracle calls and work vectors) computes
-    the documented quantity of `(x, x̂, γ, ∇ψ(x), ∇ψ(x̂))`. -/
+/-- `|(q − x̂) + ∇ψ̂| = |(x̂ − ∇ψ̂) − q|` componentwise: the vector the code takes the 1-norm of is `−w`. -/
+theorem ipopt_abs (q xh gh : Vec α) :
+    (vadd (vsub q xh) gh).map (fun a => |a|) = (vsub (vsub xh gh) q).map (fun a => |a|) := by
+  unfold vadd vsub vzip
+  induction q generalizing xh gh with
+  | nil => simp
+  | cons a as ih =>
+    cases xh with
+    | nil => simp
+    | cons b bs =>
+      cases gh with
+      | nil => simp
+      | cons d ds =>
+        simp only [List.zipWith_cons_cons, List.map_cons, List.cons.injEq]
+        refine ⟨?_, ih bs ds⟩
+        rw [← abs_neg]; congr 1; ring
+
+/-- **`calc_error_stop_crit` = the documented formula, for all ten criteria** — the generated code (which
+    works from the step `p` it is handed, prox-oracle calls and work vectors) computes the documented quantity
+    of `(x, x̂, ŷ, γ, ∇ψ(x), ∇ψ(x̂))`.  (`Ipopt`: since /repo commit f69b0f2f3; before, the box multipliers
+    entered the scaling `s_d` with the wrong sign of `∇ψ(x̂)` — finding `C06:ipopt-box-multiplier-sign`, fixed.) -/
 theorem calcErrorStopCrit_eq_doc (hnn : ∀ a : α, RealLike.isNaN a = false) (PC : Vec α → Vec α)
     (prox : α → Vec α → Vec α → Vec α × Vec α) (hP : ProxIsProj PC prox)
-    (c : PANOCStopCrit) (hc : c ≠ .Ipopt) (γ : α) (p x xh yh g gh : Vec α)
+    (c : PANOCStopCrit) (γ : α) (p x xh yh g gh : Vec α)
     (hd : Consistent PC γ p x xh g) :
     calcErrorStopCrit c prox p γ x xh yh g gh = docCrit PC c γ x xh yh g gh := by
   have hp := hd.hp
@@ -410,34 +417,19 @@ theorem calcErrorStopCrit_eq_doc (hnn : ∀ a : α, RealLike.isNaN a = false) (P
   · simp only [calcErrorStopCrit, stopCrit_ProjGradUnitNorm2, docCrit]; exact e4
   · simp only [calcErrorStopCrit, stopCrit_FPRNorm, docCrit]; rw [e1, div_eq_inv_mul]
   · simp only [calcErrorStopCrit, stopCrit_FPRNorm2, docCrit]; rw [e2, div_eq_inv_mul]
-  · exact absurd rfl hc
+  · -- Ipopt
+    have hu' : (prox 1 xh gh).2 = vsub (PC (vsub xh gh)) xh := by rw [hP 1 xh gh, smul_one]
+    have e5 : normInf (prox 1 xh gh).2 = maxAbs (vsub xh (PC (vsub xh gh))) := by
+      rw [normInf_eq_maxAbs, hu']; exact maxAbs_congr_abs _ _ (abs_vsub_comm _ _)
+    simp only [calcErrorStopCrit, stopCrit_Ipopt, docCrit, docIpopt]
+    by_cases hn : 2 * (yh.length + xh.length) = 0
+    · simp only [hn, beq_self_eq_true, if_true]; exact e5
+    · have hb : ((2 * (yh.length + xh.length)) == 0) = false := by simpa using hn
+      simp only [hb, hn, Bool.false_eq_true, if_false]
+      rw [e5, emax_eq_max, norm1_eq_sumAbs, norm1_eq_sumAbs, hu', add_comm (sumAbs _) (sumAbs yh),
+        sumAbs_congr_abs _ _ (ipopt_abs _ _ _)]
   · simp only [calcErrorStopCrit, stopCrit_LBFGSBpp, docCrit]
     rw [e3, fmaxS_eq_max hnn, norm2_eq_sqrt_sumSq]
-
-/-- **Ipopt: what the code computes** (`codedIpopt`) … -/
-theorem ipopt_eq_coded (PC : Vec α → Vec α) (prox : α → Vec α → Vec α → Vec α × Vec α)
-    (hP : ProxIsProj PC prox) (γ : α) (p x xh yh g gh : Vec α) :
-    calcErrorStopCrit .Ipopt prox p γ x xh yh g gh = codedIpopt PC xh yh gh := by
-  have hu : (prox 1 xh gh).2 = vsub (PC (vsub xh gh)) xh := by rw [hP 1 xh gh, smul_one]
-  have e3 : normInf (prox 1 xh gh).2 = maxAbs (vsub xh (PC (vsub xh gh))) := by
-    rw [normInf_eq_maxAbs, hu]; exact maxAbs_congr_abs _ _ (abs_vsub_comm _ _)
-  simp only [calcErrorStopCrit, stopCrit_Ipopt, codedIpopt]
-  by_cases hn : 2 * (yh.length + xh.length) = 0
-  · simp only [hn, beq_self_eq_true, if_true]; exact e3
-  · have hb : ((2 * (yh.length + xh.length)) == 0) = false := by simpa using hn
-    simp only [hb, hn, Bool.false_eq_true, if_false]
-    rw [e3, emax_eq_max, norm1_eq_sumAbs, norm1_eq_sumAbs, hu, add_comm (sumAbs _) (sumAbs yh)]
-
-/-- … **coincides with the documented formula whenever the two candidate box multipliers have the same
-    1-norm** — e.g. when `∇ψ(x̂) = 0` componentwise, or `x̂ = Π_C(x̂ − ∇ψ(x̂))` (a fixed point: then both are
-    `‖∇ψ(x̂)‖₁`) — **and differs from it in general** (next example): known finding
-    `C06:ipopt-box-multiplier-sign`. -/
-theorem ipopt_eq_doc_of (PC : Vec α → Vec α) (prox : α → Vec α → Vec α → Vec α × Vec α)
-    (hP : ProxIsProj PC prox) (γ : α) (p x xh yh g gh : Vec α)
-    (hw : sumAbs (vsub (vsub (PC (vsub xh gh)) xh) gh) = sumAbs (vsub (vsub xh gh) (PC (vsub xh gh)))) :
-    calcErrorStopCrit .Ipopt prox p γ x xh yh g gh = docCrit PC .Ipopt γ x xh yh g gh := by
-  rw [ipopt_eq_coded PC prox hP]
-  simp only [docCrit, docIpopt, codedIpopt, hw]
 
 /-- A tolerance met in the ∞-norm bounds every component of the residual vector. -/
 theorem approxKKT_componentwise (prox : α → Vec α → Vec α → Vec α × Vec α) (γ tol : α)
@@ -488,11 +480,11 @@ def exProx (γ : ℚ) (x g : Vec ℚ) : Vec ℚ × Vec ℚ :=
 theorem exConsistent : Consistent exPC (1/2) [1/2, -1/2] [1/2, 0] [1, -1/2] [-3, 1] :=
   ⟨by decide +kernel, by decide +kernel⟩
 
-/-- all hypotheses of `calcErrorStopCrit_eq_doc` instantiated, for each of the nine criteria -/
-example (c : PANOCStopCrit) (hc : c ≠ .Ipopt) :
+/-- all hypotheses of `calcErrorStopCrit_eq_doc` instantiated, for each of the ten criteria -/
+example (c : PANOCStopCrit) :
     calcErrorStopCrit c exProx [1/2, -1/2] (1/2) [1/2, 0] [1, -1/2] [7] [-3, 1] [2, 5]
       = docCrit exPC c (1/2) [1/2, 0] [1, -1/2] [7] [-3, 1] [2, 5] :=
-  calcErrorStopCrit_eq_doc (fun _ => rfl) exPC exProx (fun _ _ _ => rfl) c hc _ _ _ _ _ _ _ exConsistent
+  calcErrorStopCrit_eq_doc (fun _ => rfl) exPC exProx (fun _ _ _ => rfl) c _ _ _ _ _ _ _ exConsistent
 
 /-- the documented values at that point: `‖p‖∞ = ½`, `‖p‖∞/γ = 1`, unit step
     `x − Π_C(x − ∇ψ) = (−½, 1)`, KKT residual `γ⁻¹(x − x̂) + ∇ψ̂ − ∇ψ = (4, 5)` -/
@@ -502,22 +494,22 @@ example : docCrit exPC .ProjGradNorm (1/2) [1/2, 0] [1, -1/2] [7] [-3, 1] [2, 5]
     docCrit exPC .ApproxKKT (1/2) [1/2, 0] [1, -1/2] [7] [-3, 1] [2, 5] = 5 := by
   decide +kernel
 
-/-- **Ipopt: the coded and the documented formula differ** — unconstrained (`Π_C = id`), `x̂ = 0`,
-    `∇ψ(x̂) = 1000`, no general constraints: documented `w = 0`, `s_d = 1`, `ε = 1000`; the code uses
-    `‖−2∇ψ(x̂)‖₁/2 = 1000 > s_max`, `s_d = 10`, `ε = 100` (the real `calc_error_stop_crit` returns 100). -/
+/-- **Ipopt at the point where the code used to differ from the documentation** — unconstrained
+    (`Π_C = id`), `x̂ = 0`, `∇ψ(x̂) = 1000`, no general constraints: `w = 0`, `s_d = 1`, `ε = 1000` (the
+    unrepaired code returned 100); and with large multipliers `ŷ = (900, 900)` (`m = 2`, `n = 1`):
+    `s_d = max(100, 1800/6)/100 = 3`, `ε = 1000/3`. -/
 example : docIpopt (fun v : Vec ℚ => v) [0] [] [1000] = 1000 ∧
-    codedIpopt (fun v : Vec ℚ => v) [0] [] [1000] = 100 := by
+    calcErrorStopCrit .Ipopt (fun (γ : ℚ) x g => (vsub x (smul γ g), vsub (vsub x (smul γ g)) x))
+      [] 1 [] [0] [] [] [1000] = 1000 ∧
+    calcErrorStopCrit .Ipopt (fun (γ : ℚ) x g => (vsub x (smul γ g), vsub (vsub x (smul γ g)) x))
+      [] 1 [] [0] [900, 900] [] [1000] = 1000 / 3 := by
   decide +kernel
 
-/-- … and they agree where the hypothesis of `ipopt_eq_doc_of` holds (here `∇ψ(x̂) = 0`). -/
-example : calcErrorStopCrit .Ipopt exProx [] 1 [] [3, 0] [7] [] [0, 0]
-    = docCrit exPC .Ipopt 1 [] [3, 0] [7] [] [0, 0] :=
-  ipopt_eq_doc_of exPC exProx (fun _ _ _ => rfl) _ _ _ _ _ _ _ (by decide +kernel)
-
-example : no_progress_counts_consecutive_guarded 2 (by decide) [true, true, true] 0 =
-    no_progress_counts_consecutive 2 [true, true, true] 0 := rfl
-example : noProgressUpdate 0 4 2 true = 1 ∧ noProgressUpdate 0 5 2 true = 0 ∧ noProgressUpdate 3 5 2 true = 4 := by
+example : noProgressUpdate 0 4 2 true = 1 ∧ noProgressUpdate 0 5 2 true = 0 ∧ noProgressUpdate 3 5 2 true = 4 ∧
+    noProgressUpdate 0 5 0 true = 1 ∧ noProgressUpdate 2 7 0 false = 0 := by
   decide
+/-- `max_no_progress = 0`: the counter is the number of trailing unchanged iterates -/
+example : npRun 0 0 0 [true, false, true, true] = 2 := by decide
 end doc_examples
 
 end Alpaqa.Props.C06
